@@ -36,6 +36,12 @@ impl Context {
         }
     }
 
+    /// Verification hook: depths of the state stack and of the memory blocks.
+    #[cfg(feature = "verif")]
+    pub fn verif_depths(&self) -> (usize, usize) {
+        (self.states.len(), self.memory_blocks.len())
+    }
+
     pub fn begin_collecting_arguments(&mut self) {
         // build argument state that shares memory with the last context
         let current_memory_block_index: usize = self.current_memory_block_index();
